@@ -79,9 +79,8 @@ Definition bond_fields (ts : list str) : res fields :=
   | _ => Err EIO
   end.
 
-(* ItpLineMoleculetype.__init__: split() of the RAW line *)
-Definition mol_fields (raw : str) : res fields :=
-  let ts := split_ws raw in
+(* ItpLineMoleculetype.__init__ (after the repair f957630): parse = self.content.split() *)
+Definition mol_fields (ts : list str) : res fields :=
   let* name := tok ts 0 in
   let* t1 := tok ts 1 in
   let* n := py_int t1 in
@@ -102,7 +101,7 @@ Definition parse_line (k : kind) (l : str) : res pline :=
             | KPlain => Ok FNone
             | KAtom => if has then let* a := atom_fields (split_ws (strip c)) in Ok (FAtom a) else Ok FNone
             | KBond => if has then bond_fields (split_ws (strip c)) else Ok FNone
-            | KMol => if has then mol_fields l else Ok FNone
+            | KMol => if has then mol_fields (split_ws (strip c)) else Ok FNone
             end in
   Ok {| p_content := c; p_comment := m; p_directive := d; p_fields := f |}.
 
